@@ -2,7 +2,7 @@
    `exact <lemma>` and followed by Print Assumptions; the checks read this file's compile
    log.  Statements are never weakened: a statement that cannot be proved stays visible
    under a `_partial` twin (see DESIGN.md section 9). *)
-From Coq Require Import List String Bool Permutation.
+From Coq Require Import List String Ascii Bool Permutation.
 Import ListNotations.
 From DI Require Import Syntax Tokens Bounds Param Subs Superset Substitute Spec RustSem Group Search Gen GenMain Validate IMap Hygiene Dispatch Examples ExamplesGroup ExamplesF16.
 From DI.proofs Require Import Basics SupersetSound SupersetExact SupersetComplete SupersetWf SubstituteProofs SubstituteSpec BoundsProofs DispatchProofs GroupProofs SearchProofs SearchFlat SearchNested FlatSemantics FlatConcrete GenProofs GenMainProofs ParamProofs ParamAlpha ParamCanon RustSemProofs ValidateProofs IMapProofs HygieneProofs.
@@ -280,6 +280,23 @@ Theorem C01_helper_impl_verbatim : forall idx first keys row lb gen tr self wh l
 Proof. exact gen_helper_verbatim. Qed.
 Print Assumptions C01_helper_impl_verbatim.
 
+(* the items of the generated main impl (trait mode): one item per item of the trait definition,
+   in its order, with its name and no visibility, and the value of each is the helper trait's
+   item of the same name, `<Self as Helper<..>>::name` (a const's expression, an associated
+   type's type, the single call in a function's body).  With C01_helper_impl_verbatim (the
+   helper impl of a block is the block) and C01_dispatch_sound (the helper impl selected is the
+   applicable block's) the items obtained are the applicable block's, by name. *)
+Theorem C01_main_items_forward : forall tdef titems idx fb g items p,
+  (match fb with Node _ [_; tr; _; _; _] => opt_kid tr = Some p | _ => False end) ->
+  gen_main_items tdef titems idx fb g = Some (Node (K "Items" "") items) ->
+  exists hb, helper_bound idx fb (abg_idents g) = Some hb /\
+    Forall2 (fun ti it =>
+               ld (tlabel it) = String ";"%char (ld (tlabel ti)) /\
+               exists v, item_value it = Some v /\ is_forwarder hb (ld (tlabel ti)) v)
+            (tkids titems) items.
+Proof. exact main_items_trait_mode. Qed.
+Print Assumptions C01_main_items_forward.
+
 (* ===================================================================================== *)
 (* C11 -- family formation.  The search is validated per grouping by the checker gi_check   *)
 (* (run by the check on every grouping the macro reports); the checker is sound:           *)
@@ -516,6 +533,20 @@ Theorem C17_visibility_uniform : forall f others,
                               String.eqb (i_name s) (i_name fi) = true /\ i_vis s = i_vis fi) (v_items f).
 Proof. exact inherent_visibility_uniform. Qed.
 Print Assumptions C17_visibility_uniform.
+
+(* the items of the generated inherent impl are the first member's items with their labels
+   (visibility and name) exactly as written, each given the helper trait's item of that name *)
+Theorem C17_inherent_items_forward : forall tdef titems idx fb g items,
+  (match fb with Node _ [_; tr; _; _; _] => opt_kid tr = None | _ => False end) ->
+  gen_main_items tdef titems idx fb g = Some (Node (K "Items" "") items) ->
+  exists hb its, helper_bound idx fb (abg_idents g) = Some hb /\
+    (match fb with Node _ [_; _; _; _; Node _ its'] => its' = its | _ => False end) /\
+    Forall2 (fun it0 it =>
+               tlabel it = tlabel it0 /\
+               exists v, item_value it = Some v /\ is_forwarder hb (item_name (ld (tlabel it0))) v)
+            its items.
+Proof. exact main_items_inherent_mode. Qed.
+Print Assumptions C17_inherent_items_forward.
 
 (* ===================================================================================== *)
 (* C14 -- malformed invocations are rejected with the specific diagnostic                  *)
